@@ -382,6 +382,44 @@ func (p *pipeline) processPackage(pkg *gombokgen.Package) string {
 			}
 		}
 		st := findStruct(pkg, culprit)
+		if st == nil && strings.HasPrefix(reason, "runtime error") && attempt <= 8 {
+			// gombok rejects declarations with a deliberate panic(message); a RUNTIME ERROR (nil dereference, index out of range,
+			// failed type assertion) is a crash of the generator on a declaration it neither accepted nor rejected.  Find the
+			// struct without which the crash disappears and report it with its declaration as the failing input.
+			// greedy reduction: drop every struct whose removal keeps the crash; what remains is a 1-minimal crashing package
+			cur := *pkg
+			cur.Structs = append([]*gombokgen.Struct{}, pkg.Structs...)
+			for _, cand := range append([]*gombokgen.Struct{}, pkg.Structs...) {
+				if findStruct(&cur, cand.Name) == nil || len(cur.Structs) == 1 {
+					continue
+				}
+				trial := cur
+				trial.Structs = append([]*gombokgen.Struct{}, cur.Structs...)
+				removeStructs(&trial, map[string]bool{cand.Name: true})
+				if len(trial.Structs) == 0 {
+					continue
+				}
+				p.writePackage(&trial)
+				if rc2, out2 := p.runGombok(pkg.Name); rc2 != 0 && strings.Contains(out2, "runtime error") {
+					cur = trial
+				}
+			}
+			crashDecl := ""
+			if len(cur.Structs) > 0 && len(cur.Structs) < len(pkg.Structs) || len(pkg.Structs) == 1 {
+				st = findStruct(pkg, cur.Structs[0].Name)
+				for _, m := range cur.Structs {
+					crashDecl += m.DeclWithDerives()
+				}
+			}
+			if st != nil {
+				prop := "C07"
+				if !st.Ann.Value && len(st.Derives) > 0 {
+					prop = "C08"
+				}
+				res.fail(prop+".generator-crash:"+normReason(reason), p.origin(st)+crashDecl,
+					"gombok crashed (Go runtime error, not a rejection message) on this declaration: "+reason)
+			}
+		}
 		if st == nil || attempt > 8 {
 			res.mu.Lock()
 			res.rejected += len(pkg.Structs)
